@@ -568,7 +568,14 @@ class GroupList(list):
         it = self._it
         parts = [it.call(f, [sub] + list(args), dict(kw)) for _k, sub in self]
         if not parts:
-            raise Undecided("groupby.apply on an empty table")
+            if self.df.n == 0:
+                # no groups, no calls: pandas hands back an empty table with the selected columns
+                d = DF({c: Vec([], aligned=True) for c in self.df.cols}, 0)
+                d.exact = self.df.exact
+                for v in d.cols.values():
+                    v.exact = True
+                return d
+            raise Undecided("groupby.apply without groups")
         return ext_call(it, "pd.concat", [parts], {})
 
 
@@ -713,10 +720,25 @@ def load_subscript(it, obj, k):
             return _col(obj.data, k)
         if isinstance(k, tuple) and len(k) == 2 and isinstance(k[1], str) and isinstance(k[0], Vec):
             return _maskload(obj.data.cols[k[1]], k[0])
+        if isinstance(k, tuple) and len(k) == 2 and isinstance(k[1], str) and isinstance(k[0], MaskIdx):
+            # arr[<row positions>, col] goes through .loc, which reads them as index labels
+            if obj.data.index != "range":
+                raise Raised("IndexMisalignment", f"row positions (np.flatnonzero / np.nonzero of a mask) used as index labels in `[rows, {k[1]!r}]` of a table whose index is not "
+                             "known to be 0..n-1: the rows carrying those numbers as labels are addressed, not the rows at those positions")
+            return _maskload(obj.data.cols[k[1]], k[0].mask)
         if isinstance(k, Vec):
             return GA(obj.cls, df_select(obj.data, k), obj.data.n, dict(obj.meta))
         if isinstance(k, slice) and k.start is None and k.stop == 0:
             return GA(obj.cls, DF({c: Vec([]) for c in obj.data.cols}, 0), 0, dict(obj.meta))
+        if isinstance(k, slice) and obj.data.exact and all(x is None or (isinstance(x, int) and not isinstance(x, bool)) for x in (k.start, k.stop, k.step)):
+            # arr[a:b] of literal rows: the rows at those positions (DataFrame slicing with integers is positional)
+            mask = Vec([False] * obj.data.n)
+            for i in list(range(obj.data.n))[k]:
+                mask.v[i] = True
+            if k.step is not None and k.step < 0:
+                raise Undecided("reversed row slice of a table")
+            d = df_select(obj.data, mask)
+            return GA(obj.cls, d, d.n, dict(obj.meta))
         if isinstance(k, int) and not isinstance(k, bool):
             fields = [c for c in obj.data.cols if not c.startswith("__")]
             if not -obj.data.n <= k < obj.data.n:
@@ -1007,6 +1029,11 @@ def _store_subscript(it, obj, k, v, aug=False):
             return
         if isinstance(mask, slice) and mask == slice(None, None, None):
             mask = None
+        if isinstance(mask, MaskIdx):
+            if accessor in ("loc", "at") and obj.index != "range":
+                raise Raised("IndexMisalignment", f"row positions (np.flatnonzero / np.nonzero of a mask) used as index labels in `.loc[rows, {col!r}] = ...` on a table whose index is "
+                             "not known to be 0..n-1: the rows carrying those numbers as labels are written, not the rows at those positions")
+            mask = mask.mask
         if isinstance(col, int) and not isinstance(col, bool):
             col = [c for c in obj.cols if not c.startswith("__")][col]          # .iloc[row, column position]
         if not isinstance(col, str):
@@ -1347,9 +1374,49 @@ def value_method(it, obj, name, args, kw):
     raise Undecided(f"method {name} on {type(obj).__name__}")
 
 
+# fixed-width integer and reduced-precision float dtypes: name -> (lowest, highest) / None
+_NARROW_INT = {}
+for _bits, _names in ((8, ("int8", "i1", "byte")), (16, ("int16", "i2", "short")), (32, ("int32", "i4", "intc"))):
+    for _n in _names:
+        _NARROW_INT[_n] = (-2 ** (_bits - 1), 2 ** (_bits - 1) - 1)
+for _bits, _names in ((8, ("uint8", "u1", "ubyte")), (16, ("uint16", "u2", "ushort")), (32, ("uint32", "u4", "uintc"))):
+    for _n in _names:
+        _NARROW_INT[_n] = (0, 2 ** _bits - 1)
+_NARROW_FLOAT = ("float32", "f4", "single", "float16", "f2", "half")
+
+
+def _dtype_name(ty):
+    if isinstance(ty, Module) and ty.name.startswith("np."):
+        return ty.name[3:]
+    if isinstance(ty, str):
+        return ty.lstrip("<>=")
+    return None
+
+
 def astype(x, ty):
     if isinstance(ty, _TypeProxy):
         ty = ty.pytype
+    dn = _dtype_name(ty)
+    if dn in _NARROW_INT:
+        lo, hi = _NARROW_INT[dn]
+        if is_nan(x):
+            raise Raised("ValueError", "cannot convert NaN to integer")
+        if isinstance(x, bool) or num(x):
+            v = int(x)
+            return (v - lo) % (hi - lo + 1) + lo            # a value outside the type's range wraps around
+        t = f_trunc(x)
+        if t.lo >= lo and t.hi <= hi:
+            return t
+        return fatom(f"wrapped_{dn}", [T(x)], lo, hi, True)   # not known to fit: the stored number is the value modulo the type's width
+    if dn in _NARROW_FLOAT:
+        if isinstance(x, bool) or is_nan(x):
+            return int(x) if isinstance(x, bool) else x
+        if num(x) and abs(x) < 60000:
+            import struct
+            code = "e" if dn in ("float16", "f2", "half") else "f"
+            if Fr(struct.unpack(code, struct.pack(code, float(x)))[0]) == Fr(x):
+                return x                                       # representable as it is
+        return fatom(f"rounded_{dn}", [T(x)], T(x).lo, T(x).hi)  # the nearest reduced-precision number, not the value itself
     if ty in ("int", int, "int64", "Int64"):
         if is_nan(x):
             raise Raised("ValueError", "cannot convert NaN to integer")
@@ -1650,6 +1717,23 @@ def df_method(it, obj, name, args, kw):
     ai = _ai()
     if name == "copy":
         return obj.copy()
+    if name == "round" and len(args) <= 1 and set(kw) <= {"decimals"}:
+        # DataFrame.round(decimals): every numeric column, element-wise; whole numbers and text stay as they are
+        nd = args[0] if args else kw.get("decimals", 0)
+        d = obj.copy()
+        for c, col in list(d.cols.items()):
+            def rnd(x, nd=nd):
+                if is_nan(x) or isinstance(x, (str, bool, bytes, Opaque)) or (isinstance(x, int)) or (isinstance(x, Term) and x.integer):
+                    return x
+                if num(x) and isinstance(nd, int):
+                    return Fr(round(Fr(str(x)) if isinstance(x, float) else Fr(x), nd))
+                if isinstance(x, (Term, OrderVal)):
+                    return fatom("round_nd", [T(x), T(nd)], T(x).lo, T(x).hi)
+                return x
+            new = Vec([rnd(x) for x in col.v], fresh=col.fresh, aligned=col.aligned)
+            new.exact, new.labels = col.exact, col.labels
+            d.cols[c] = new
+        return d
     if name == "set_index" and len(args) == 1 and isinstance(args[0], IndexVals) and not kw:
         d = obj.copy()
         d.index = "any"
@@ -2194,6 +2278,8 @@ def ext_call(it, dotted, args, kw):
         return frame_from_records(it, args, kw)
     if name == "pd.concat":
         parts = list(it.iterate(args[0]))
+        if not parts and isinstance(args[0], (list, tuple)):
+            raise Raised("ValueError", "No objects to concatenate")
         if parts and all(isinstance(x, DF) for x in parts) and kw.get("axis", 0) == 0:
             cols = []
             for x in parts:
